@@ -1196,3 +1196,45 @@ Definition src_series_from_by_keys : list string :=
    "end";
    "grouper = GroupBy(grouping_keys)";
    "return cls(obj, grouper=grouper)"].
+
+(* core: crosstab *)
+Definition src_crosstab : list string :=
+  ["def crosstab(index: ArrayCollection, columns: ArrayCollection, values: Optional[ArrayCollection]=None, aggfunc: str='sum', mask: Optional[ArrayType1D]=None, margins: Literal[True, False, 'row', 'column']=False)";
+   "index, index_names = convert_data_to_arr_list_and_keys(index)";
+   "columns, index_columns = convert_data_to_arr_list_and_keys(columns)";
+   "n0, n1 = (len(index), len(columns))";
+   "levels = list(range(n0 + n1))";
+   "n0, n1 = (len(index), len(columns))";
+   "levels = list(range(n0 + n1))";
+   "row_levels = levels[:n0]";
+   "column_levels = levels[n0:]";
+   "do_column_margin = margins in (True, 'column')";
+   "do_row_margin = margins in (True, 'row')";
+   "margin_levels = []";
+   "if do_row_margin";
+   "margin_levels += row_levels";
+   "end";
+   "if do_column_margin";
+   "margin_levels += column_levels";
+   "end";
+   "grouper = GroupBy(index + columns, sort=False)";
+   "if values is None";
+   "aggregation = grouper.size(mask=mask, margins=margin_levels)";
+   "else";
+   "if aggfunc == 'size'";
+   "raise ValueError('aggfunc == 'size' only valid when values is None. Try count instead (for count of non-null values)')";
+   "else";
+   "aggregation = grouper.agg(values=values, agg_func=aggfunc, mask=mask, margins=margin_levels)";
+   "end";
+   "end";
+   "table = aggregation.unstack(level=column_levels)";
+   "if not do_column_margin";
+   "all_levels = grouper.result_index.levels";
+   "if len(column_levels) == 1";
+   "columns = all_levels[-1]";
+   "else";
+   "columns = pd.MultiIndex.from_product([all_levels[lvl] for lvl in column_levels])";
+   "end";
+   "table = table[[c for c in columns if c in table]]";
+   "end";
+   "return table"].
